@@ -37,6 +37,26 @@ def family(thorough):
         # grouped and ordered
         qs.append('SELECT %s, count(*) FROM %s GROUP BY %s ORDER BY %s' % (cols[0], t, cols[0], cols[0]))
         qs.append('SELECT %s, sum(%s) FROM %s GROUP BY %s ORDER BY %s DESC LIMIT 2' % (cols[1], cols[0], t, cols[1], cols[1]))
+    # an ORDER BY over input that is already ordered: by the same keys, by a prefix of them, by more keys, in the other direction
+    for t, cols in tabs.items():
+        a, b = cols[0], cols[1]
+        for inner, outer in [(a, '%s, %s' % (a, b)), (a, '%s, %s DESC' % (a, b)), ('%s, %s' % (a, b), a), (a, a), (a, a + ' DESC'), (a + ' DESC', a), (b, '%s, %s' % (a, b)),
+                             ('%s DESC' % a, '%s DESC, %s' % (a, b))]:
+            qs.append('SELECT %s, %s FROM (SELECT %s, %s FROM %s ORDER BY %s) ORDER BY %s' % (a, b, a, b, t, inner, outer))
+        qs.append('SELECT %s, count(*) FROM (SELECT %s, %s FROM %s ORDER BY %s) GROUP BY %s, %s ORDER BY %s' % (a, a, b, t, a, a, b, a) if False else
+                  'SELECT %s, %s, count(*) FROM (SELECT %s, %s FROM %s ORDER BY %s) GROUP BY %s, %s' % (a, b, a, b, t, a, a, b))
+    # joins whose inputs are already ordered (a sorted derived table; on disk also a primary-key scan), with ORDER BY / GROUP BY above
+    for jt in ('INNER', 'LEFT', 'RIGHT', 'FULL'):
+        qs += ['SELECT a, x, y FROM t %s JOIN (SELECT x, y FROM u ORDER BY x) ON a = x ORDER BY x' % jt,
+               'SELECT a, x, y FROM (SELECT x, y FROM u ORDER BY x) %s JOIN t ON a = x ORDER BY x' % jt,
+               'SELECT y, count(*) FROM t %s JOIN (SELECT x, y FROM u ORDER BY y) ON a = x GROUP BY y' % jt,
+               'SELECT u.x, t.a FROM u %s JOIN t ON u.x = t.a ORDER BY t.a' % jt,
+               'SELECT t.a, count(*) FROM u %s JOIN t ON u.x = t.a GROUP BY t.a' % jt,
+               'SELECT t.a, w.p FROM t %s JOIN w ON t.b = w.p ORDER BY w.p' % jt]
+    # merge joins whose right input is ordered by more than the join key, left input with repeated keys
+    for jt in ('INNER', 'RIGHT'):
+        qs += ['SELECT b, x, y FROM (SELECT a, b FROM t ORDER BY b) %s JOIN (SELECT x, y FROM u ORDER BY x, y) ON b = x ORDER BY x, y' % jt,
+               'SELECT q, x, y FROM (SELECT p, q FROM w ORDER BY q) %s JOIN (SELECT x, y FROM u ORDER BY x, y DESC) ON q = x ORDER BY x, y DESC' % jt]
     # joins on the keys (merge join candidates) with an ORDER BY
     qs += ['SELECT t.a, w.p FROM t INNER JOIN w ON t.a = w.p ORDER BY t.a',
            'SELECT t.a, w.q FROM t LEFT JOIN w ON t.a = w.p ORDER BY t.a DESC LIMIT 2',
